@@ -25,6 +25,8 @@ def run(ctx, rep):
     rep.rule('R04.2', 'release-all on drop: <GC as Drop>::drop frees every object still managed')
     rep.rule('R04.3', 'hand-over pairing: compile_ast untraces every constant; run adopts every constant; Halt untraces the result before the only Ok return')
     rep.rule('R04.4', 'sweep exactness: every object removed from the managed list is freed, nothing else is')
+    rep.rule('R04.5', 'the caller can release a returned result completely: free_recursive frees every element and the object')
+    check_free_recursive(ctx, rep, 'R04.5')
     # ---- R04.1 ---------------------------------------------------------------------------------
     news = [(b, t) for b, t in fn.calls() if callee_name(t) == GCN + 'new']
     rep.ob(len(news) == 1, 'R04.1', fn.path, 'one collector per run', 'run() creates exactly one collector (found %d)' % len(news), fn.loc())
@@ -111,3 +113,20 @@ def run(ctx, rep):
     rep.ob(okx and n, 'R04.4', sw.path, 'remove/free pairing', 'each object removed from the managed list is passed to free(), and nothing else is', sw.loc())
     zs = [t for b, t in sw.calls() if callee_name(t).endswith('iter_zeros')]
     rep.ob(len(zs) == 1, 'R04.4', sw.path, 'frees the unmarked', 'the objects removed are those whose mark bit is clear (iter_zeros)', sw.loc())
+
+
+def check_free_recursive(ctx, rep, rule):
+    """Object::free_recursive: every element of an array is freed (no iteration of the element loop skips the free)"""
+    F = ctx.facts()
+    fn = F.fn('object::Object::free_recursive')
+    loops = fn.natural_loops()
+    rep.ob(len(loops) == 1, rule, fn.path, 'element loop', 'one loop over the elements (found %d)' % len(loops), fn.loc())
+    from rules.trm import cycle_without
+    for h, body in loops:
+        frees = {b for b, t in fn.calls(body) if callee_name(t) in ('object::Object::free', 'object::Object::free_recursive')}
+        nexts = {b for b, t in fn.calls(body) if callee_name(t).endswith('Iterator>::next')}
+        # a cycle through the header that takes an element (passes next) but avoids every free
+        cyc = cycle_without(fn, h, body, frees)
+        rep.ob(bool(frees) and cyc is None, rule, fn.path, 'every element freed', 'each iteration of the element loop frees its element (a cycle avoiding free(): %s)' % (cyc[:8] if cyc else None), fn.loc())
+    last = [b for b, t in fn.calls() if callee_name(t) == 'object::Object::free' and not any(b in body for _, body in loops)]
+    rep.ob(bool(last), rule, fn.path, 'frees the object itself', 'after the elements the object itself is freed', fn.loc())
